@@ -713,6 +713,7 @@ func c20(e *Env) {
 	// trials then run four at a time
 	sem := make(chan struct{}, 4)
 	var wg sync.WaitGroup
+	var watchdogFired atomic.Bool
 	for ri, rn := range runs {
 		if ri == nbig {
 			wg.Wait()
@@ -722,6 +723,9 @@ func c20(e *Env) {
 			defer wg.Done()
 			sem <- struct{}{}
 			defer func() { <-sem }()
+			if watchdogFired.Load() {
+				return // reported by watchedOutput: the other builds would only wait as long again
+			}
 			if rn.bin == "" {
 				r.Inconclusive("no binary for " + rn.label)
 				return
@@ -740,7 +744,7 @@ func c20(e *Env) {
 			out, err := watchedOutput(r, cmd, e.Thorough, rn.label)
 			r.Set("seconds_"+rn.label, int(time.Since(t0).Seconds()))
 			if strings.Contains(string(out), "SIGQUIT: quit") {
-				break // the watchdog fired (reported by watchedOutput): the other builds would only wait as long again
+				watchdogFired.Store(true)
 			}
 			races := 0
 			first := ""
